@@ -11,8 +11,14 @@ R41b last definition wins: _register_macro overwrites program.macros[name] uncon
 R41c a started macro may not be edited or removed: _validate_liveedit_method raises MethodEditError
      for a macro with run_started_count > 0 that is missing, retyped, or whose source differs, and it
      is on the must-call path of every merge.
-Does not decide completeness of the recursion detector over arbitrary call graphs (observed while
-reading: macro_calling_macro follows only the first Call macro child - out of static reach).
+R41d detector completeness (direct call lines): in the search behind MacroNode.macro_calling_macro, inside the loop over the
+     macro's children a path through another macro is returned only under a test of that path (non-empty / contains the
+     target); an unconditional `return [child] + <search of child>` lets the *first* Call macro line decide, so a recursive
+     call on a later line is not found and the call does not fail. The search also carries a visited set (or otherwise
+     never re-enters a macro it is searching), so call cycles that do not involve the target terminate.
+R41e detector freshness: macro_calling_macro does not hand out a stored result (no return value that is an attribute of the
+     node): which macros a name is bound to changes with every (re)definition, so a path kept from an earlier call goes stale.
+Does not decide call lines nested inside blocks or Watches of a macro body (the search looks at direct children only).
 """
 from __future__ import annotations
 
@@ -164,3 +170,63 @@ def run(ctx) -> None:
         ctx.ok("R41c", "every merge validates the edit")
     else:
         ctx.fail("R41c", cms, cms.node, "every merge validates the edit", "merge without validation")
+
+    # ---- R41d / R41e
+    ctx.rule("R41d", "the recursion search follows every Call macro line")
+    ctx.rule("R41e", "the recursion search result is computed at call time")
+    from ..util import value_leaves, local_single_defs
+    mn = prog.cls("openpectus.lang.model.ast:MacroNode")
+    entry = mn.methods.get("macro_calling_macro")
+    if entry is None:
+        raise AnchorError("MacroNode.macro_calling_macro missing")
+    # the search functions: entry and the same-class helpers it (transitively) calls
+    fns, todo = [], [entry]
+    while todo:
+        fn = todo.pop()
+        if any(fn is x for x in fns):
+            continue
+        fns.append(fn)
+        for c in walk_no_nested(fn.node):
+            if isinstance(c, ast.Call) and isinstance(c.func, ast.Attribute) and c.func.attr in mn.methods:
+                todo.append(mn.methods[c.func.attr])
+    names = {fn.name for fn in fns}
+    n_loops = 0
+    for fn in fns:
+        ctx.analysed(fn)
+        gfn = cfg_of(fn)
+        lsd = local_single_defs(fn)
+        for lp in [n for n in gfn.nodes if n.kind == "for" and "children" in norm(n.ast.iter)]:
+            if not any(isinstance(x, ast.Call) and isinstance(x.func, ast.Name) and x.func.id == "isinstance" and "CallMacroNode" in norm(x)
+                       for x in ast.walk(lp.ast)):
+                continue
+            n_loops += 1
+            body_ids = gfn.search([d for d, l in gfn.succ[lp.id] if l == "loop"], lambda n: False, collect=True,
+                                  blocked=lambda n: n.id == lp.id)
+            for rn in [gfn.nodes[i] for i in body_ids if gfn.nodes[i].kind == "stmt" and isinstance(gfn.nodes[i].ast, ast.Return)]:
+                v = rn.ast.value
+                rec_locals = [nm for nm, d in lsd.items() if any(isinstance(c, ast.Call) and call_attr(c) in names for c in ast.walk(d))]
+                direct = v is not None and any(isinstance(c, ast.Call) and call_attr(c) in names for c in ast.walk(v))
+                via = [nm for nm in rec_locals if v is not None and any(isinstance(x, ast.Name) and x.id == nm for x in ast.walk(v))]
+                if not direct and not via:
+                    continue
+                inst = f"{fn.short}: `{norm(rn.ast)[:70]}` only when the sub-search found the target"
+                facts = facts_at(gfn, rn)
+                guarded = any(any(nm in a for nm in via) and pol for a, pol in facts) if via else False
+                if guarded:
+                    ctx.ok("R41d", inst)
+                else:
+                    ctx.fail("R41d", fn, rn.ast, inst, "the path through the first Call macro line that names a known macro is returned whether or "
+                             "not it leads back to the macro being called; later Call macro lines are never examined, so a macro that calls "
+                             "itself on a later line is not detected: the call does not fail (the method hangs in the nested call)")
+    if n_loops == 0:
+        raise AnchorError("macro_calling_macro: loop over the macro's children with a CallMacroNode test not found")
+    inst = "macro_calling_macro returns a freshly computed path"
+    stale = [(lf, lfn) for r in [n.value for n in walk_no_nested(entry.node) if isinstance(n, ast.Return) and n.value is not None]
+             for lf, lfn in value_leaves(ctx.res, r, entry)
+             if isinstance(lf, ast.Attribute) and isinstance(lf.value, ast.Name) and lf.value.id == "self" and lf.attr not in ("name", "children")]
+    if not stale:
+        ctx.ok("R41e", inst)
+    else:
+        lf, lfn = stale[0]
+        ctx.fail("R41e", entry, lf, inst, f"the result can be the stored `{norm(lf)}`: a path determined for an earlier call is reused after a callee "
+                 "has been re-defined, so a call that now leads back to the macro passes the test and the body starts")
